@@ -14,6 +14,12 @@ CHECKS = {
  "C03": ("exploration", "exhaustive enumeration of a bounded index box plus Hypothesis-generated nested parents; oracle = Python list indexing",
          "Every index of the bounded box on a Signal parent (complete) and sampled indices on nested slice/concat/port-reference/bundle-reference parents are built, width-queried, connected, elaborated and exported; acceptance, reported width and the exported bit sequence are compared with Python's own list indexing.",
          "Trusts Python list slicing and the package reader; nested parents sampled; acceptance is only required where the statement requires it."),
+ "C05": ("exploration", "metamorphic property-based testing: adversarial renaming of designer objects onto the names Hdl21 invents, C01 differential oracle plus name-uniqueness",
+         "Designs are exported once to learn the names the elaborator invents per module; designer signals, ports, instances, bundle instances and no-connect names are then renamed onto those names (and '_' variants); the renamed design must raise or export a package with pairwise distinct names that is isomorphic to the reference interpreter's circuit.",
+         "Relies on the reference interpreter being name-agnostic; top-level bundle ports are made internal so port names are designer-chosen; sampled."),
+ "C06": ("exploration", "property-based testing plus corpus sweep: closure checker (validity predicate over every exported package) and acceptance by from_proto and the vlsirtools netlisters",
+         "Every package obtained from generated designs, the examples and built-in generators over their parameter ranges, and PDK-compiled designs is checked for closure (names, definition order, targets, port sets, bit ranges, widths) and must be accepted by from_proto and the spice and spectre netlisters.",
+         "Closure rules read from the VLSIR schema; netlisters are not run on packages that reference hdl21.primitives (they reject those by design)."),
  "C10": ("exploration", "exhaustive enumeration of a bounded family of bundle-definition trees plus Hypothesis-generated deeper trees; oracle = reference flattener written from the statement",
          "For every tree of the enumerated family and sampled deeper/wider trees the exported module's ports (name, width, direction) and internal signals are compared with a reference flattener (names by path, parity of flips for declared ports, role source/sink rule, plain leaves undirected, internal instances -> signals); bundle connections are checked with the C01 isomorphism oracle.",
          "Trusts the reference flattener's reading of the statement (role directions not flipped); enumerated family complete only within its stated bounds."),
